@@ -3,10 +3,12 @@
 package parser
 
 import (
+	"context"
 	"io/fs"
 	"path/filepath"
 	"strings"
 
+	"github.com/risor-io/risor/ast"
 	"github.com/risor-io/risor/internal/verifrt"
 )
 
@@ -42,4 +44,61 @@ func HarnessC14ImportPathStaysInRoot() {
 	verifrt.Assert(fs.ValidPath(name), "valid-fs-path")
 	verifrt.Assert(!strings.Contains(s, ".."), "no-dotdot")
 	verifrt.Assert(!strings.HasPrefix(s, "/"), "not-absolute")
+}
+
+// HarnessC14ParsedImportsStayInRoot: whatever text stands between the quotes
+// of `import "…"`, `from "…" import x` or `from "…" import (x, y as z)`, a
+// statement the parser accepts names a module file inside the import root.
+func HarnessC14ParsedImportsStayInRoot() {
+	maxN := 4
+	if verifrt.Thorough() {
+		maxN = 6
+	}
+	n := verifrt.Choose(maxN + 1)
+	s := verifrt.String(n)
+	for i := 0; i < n; i++ {
+		// keep the text inside one string literal
+		verifrt.Assume(s[i] != '"' && s[i] != '\\' && s[i] != '\n' && s[i] != '\r')
+	}
+	form := verifrt.Choose(3)
+	src := ""
+	switch form {
+	case 0:
+		src = "import \"" + s + "\""
+	case 1:
+		src = "from \"" + s + "\" import x"
+	case 2:
+		src = "from \"" + s + "\" import (x, y as z)"
+	}
+	prog, err := Parse(context.Background(), src)
+	if err != nil {
+		verifrt.Reach("rejected")
+		return
+	}
+	verifrt.Reach("accepted")
+	stmts := prog.Statements()
+	verifrt.Assert(len(stmts) == 1, "one-statement")
+	if len(stmts) != 1 {
+		return
+	}
+	name := ""
+	switch st := stmts[0].(type) {
+	case *ast.Import:
+		name = st.Path().Value()
+	case *ast.FromImport:
+		for i, p := range st.Parents() {
+			if i > 0 {
+				name += "/"
+			}
+			name += p.Literal()
+		}
+	default:
+		verifrt.Fail("import-statement-parsed-as-import")
+		return
+	}
+	verifrt.Assert(verifrt.EqString(name, s), "module-path-is-the-quoted-text")
+	full := filepath.Join("/r", name+".risor")
+	verifrt.Assert(strings.HasPrefix(full, "/r/"), "inside-absolute-root")
+	verifrt.Assert(fs.ValidPath(name+".risor"), "valid-fs-path")
+	verifrt.Assert(!strings.Contains(name, ".."), "no-dotdot")
 }
